@@ -1,8 +1,48 @@
-/- Driver ops for C11 (none yet). -/
+/- Driver ops for C11: which attributes survive export + load in the model (over `V = String` tokens). -/
 import Xrfmv.Drv.Common
+import Xrfmv.Model.State
+
+open Lean Xrfmv.Drv
 
 namespace Xrfmv.Drv.C11
+open Xrfmv.State Xrfmv.Gen.State
 
-def ops : List (String × Handler) := []
+def mfields : List (String × MField) :=
+  [("rfm_params", .rfmParams), ("categorical_info", .categoricalInfo), ("n_classes_", .nClasses),
+   ("split_temperature", .splitTemperature), ("classification_mode", .classificationMode),
+   ("class_converter_._prior", .convPrior), ("class_converter_._C", .convC), ("class_converter_._invA", .convInvA),
+   ("class_converter_._numerical_type", .convNumType), ("extra_rfm_params_", .extraRfmParams), ("solver", .solver)]
+
+def lfields : List (String × LField) :=
+  [("bandwidth", .bandwidth), ("weights", .weights), ("M", .M), ("sqrtM", .sqrtM), ("train_indices", .trainIndices)]
+
+def nfields : List (String × NField) :=
+  [("split_direction", .splitDirection), ("split_point", .splitPoint), ("adaptive_temp_scaling", .adaptiveTempScaling)]
+
+/-- `{"op":"flows","isClass":b}` → for every attribute whether the source's value arrives in the loaded model
+(source values are distinct tokens `src:<name>`, fresh values `fresh:<name>`). -/
+def opFlows : Handler := fun j => do
+  let isClass ← j.getObjValAs? Bool "isClass"
+  let src : MState String := { isClass := isClass, m := fun a => "src:" ++ toString (repr a) }
+  let fr : MState String := { isClass := false, m := fun a => "fresh:" ++ toString (repr a) }
+  let loaded := loadM fr isClass (exportM src)
+  let mres := mfields.map fun (n, a) => (n, toJson (loaded.m a == src.m a))
+  let leaf : Tree String := .leaf (fun a => "src:" ++ toString (repr a)) "gather(src:Xrfmv.Gen.State.LField.trainIndices)"
+  let lt := loadTree (fun a => "fresh:" ++ toString (repr a)) "fresh:centers" (fun a => "default:" ++ toString (repr a))
+    (fun v => "gather(" ++ v ++ ")") (exportTree leaf)
+  let lres := match lt with
+    | .leaf f c => lfields.map (fun (n, a) => (n, toJson (f a == "src:" ++ toString (repr a)))) ++
+        [("centers", toJson (c == "gather(src:Xrfmv.Gen.State.LField.trainIndices)"))]
+    | _ => []
+  let node : Tree String := .node (fun a => "src:" ++ toString (repr a)) leaf leaf
+  let nt := loadTree (fun a => "fresh:" ++ toString (repr a)) "fresh:centers" (fun a => "default:" ++ toString (repr a))
+    (fun v => "gather(" ++ v ++ ")") (exportTree node)
+  let nres := match nt with
+    | .node f _ _ => nfields.map fun (n, a) => (n, toJson (f a == "src:" ++ toString (repr a)))
+    | _ => []
+  pure <| Json.mkObj [("model", Json.mkObj mres), ("leaf", Json.mkObj lres), ("node", Json.mkObj nres),
+    ("exportPure", toJson exportLeavesSourceUntouched)]
+
+def ops : List (String × Handler) := [("flows", opFlows)]
 
 end Xrfmv.Drv.C11
